@@ -1,7 +1,9 @@
 ------------------------------ MODULE TraceMD4 ------------------------------
 (* Trace validation (code -> model) for the streaming MD4 object: each line is a call made on one real
    md4.MD4 -- write(bytes) or sum -> digest.  The specification carries the concrete mirror
-   (chaining value, unprocessed tail, length) and recomputes every digest the code reported. *)
+   (chaining value, unprocessed tail, length) and recomputes every digest the code reported.
+   ext(d, q, r, x) -> out: the code reported d for a long message P and out for P \o pad(P) \o x, whose length before x is
+   q * 2^20 + r; out must follow from d (MD4Extend). *)
 EXTENDS MD4, TLC, TLCExt, Json
 
 VARIABLES hs, buf, n, l
@@ -20,6 +22,8 @@ Step ==
                                  /\ n' = n + Len(ev.b)
          [] ev.op = "sum"   -> /\ ev.d = MD4Finalize(hs, buf, n)      \* P: digest of everything written so far
                                /\ UNCHANGED <<hs, buf, n>>          \* P: reading does not change the state
+         [] ev.op = "ext"   -> /\ ev.out = MD4Extend(ev.d, ev.q, ev.r, ev.x)   \* P: long messages, through the chaining value (MD4.tla)
+                               /\ UNCHANGED <<hs, buf, n>>
          [] OTHER -> FALSE
 
 TraceSpec == Init /\ [][Step]_<<hs, buf, n, l>>
